@@ -118,6 +118,40 @@ FAMILIES = {
     "tuple_target": (lambda n: "(" * n + "a" + ",)" * n + " = x\n", "nest"),
     "star_list_target": (lambda n: "[" * n + "*a" + "]" * n + " = x\n", "nest"),
     "call_macro_brackets": (lambda n: "f!(" + "(" * n + "a" + ")" * n + ")\n", "nest"),
+    "del_tuple": (lambda n: "del " + "(" * n + "a" + ",)" * n + "\n", "nest"),
+    "del_list": (lambda n: "del " + "[" * n + "a" + "]" * n + "\n", "nest"),
+    "del_paren": (lambda n: "del " + "(" * n + "a" + ")" * n + "\n", "nest"),
+    "for_target": (lambda n: "for " + "(" * n + "a" + ",)" * n + " in x:\n    pass\n", "nest"),
+    "with_target": (lambda n: "with c as " + "(" * n + "a" + ",)" * n + ":\n    pass\n", "nest"),
+    "comp_target": (lambda n: "x = [1 for " + "(" * n + "a" + ",)" * n + " in y]\n", "nest"),
+    "star_tuple_target": (lambda n: "(*" * n + "a" + ",)" * n + " = x\n", "nest"),
+    "subscript_target": (lambda n: "a" + "[b" * n + "]" * n + " = 1\n", "nest"),
+    "env_target": (lambda n: "${" * n + "'a'" + "}" * n + " = 1\n", "nest"),
+    "type_param_bound": (lambda n: "def f[T: " + "list[" * n + "int" + "]" * n + "](): pass\n", "nest"),
+    "type_alias": (lambda n: "type X[T] = " + "list[" * n + "T" + "]" * n + "\n", "nest"),
+    "kwarg_call": (lambda n: "x = " + "f(k=" * n + "1" + ")" * n + "\n", "nest"),
+    "starred_call": (lambda n: "x = " + "f(*" * n + "a" + ")" * n + "\n", "nest"),
+    "dstarred_call": (lambda n: "x = " + "f(**" * n + "a" + ")" * n + "\n", "nest"),
+    "paren_strings": (lambda n: "x = " + "(" * n + "'a' 'b'" + ")" * n + "\n", "nest"),
+    "starred_list": (lambda n: "x = " + "[*" * n + "a" + "]" * n + "\n", "nest"),
+    "walrus": (lambda n: "x = " + "(a := " * n + "1" + ")" * n + "\n", "nest"),
+    "lambda_default": (lambda n: "x = " + "lambda a=" * n + "1" + ": 0" * n + "\n", "nest"),
+    "slice_nest": (lambda n: "x = " + "a[" * n + "1" + ":2]" * n + "\n", "nest"),
+    "decorator_call": (lambda n: "@" + "f(" * n + "a" + ")" * n + "\ndef g(): pass\n", "nest"),
+    "class_bases": (lambda n: "class A(" + "f(" * n + "B" + ")" * n + "): pass\n", "nest"),
+    "return_tuple": (lambda n: "def f():\n    return " + "(" * n + "a" + ",)" * n + "\n", "nest"),
+    "yield_paren": (lambda n: "def f():\n    x = " + "(yield " * n + "a" + ")" * n + "\n", "nest"),
+    "not_paren": (lambda n: "x = " + "not (" * n + "a" + ")" * n + "\n", "nest"),
+    "bool_paren": (lambda n: "x = " + "(a or " * n + "b" + ")" * n + "\n", "nest"),
+    "compare_paren": (lambda n: "x = " + "(a < " * n + "b" + ")" * n + "\n", "nest"),
+    "try_blocks": (lambda n: "".join(" " * i + "try:\n" for i in range(n)) + " " * n + "pass\n" + "".join(" " * i + "finally:\n" + " " * (i + 1) + "pass\n" for i in reversed(range(n))), "nest"),
+    "for_blocks": (lambda n: "".join(" " * i + "for a in b:\n" for i in range(n)) + " " * n + "pass\n", "nest"),
+    "class_blocks": (lambda n: "".join(" " * i + "class A:\n" for i in range(n)) + " " * n + "x = 1\n", "nest"),
+    "match_blocks": (lambda n: "".join(" " * (2 * i) + "match a:\n" + " " * (2 * i + 1) + "case 1:\n" for i in range(n)) + " " * (2 * n) + "pass\n", "nest"),
+    "match_class": (lambda n: "match x:\n    case " + "A(b=" * n + "1" + ")" * n + ":\n        pass\n", "nest"),
+    "match_mapping": (lambda n: "match x:\n    case " + "{1: " * n + "a" + "}" * n + ":\n        pass\n", "nest"),
+    "match_group": (lambda n: "match x:\n    case " + "(" * n + "a" + ")" * n + ":\n        pass\n", "nest"),
+    "match_star": (lambda n: "match x:\n    case " + "[*_, " * n + "a" + "]" * n + ":\n        pass\n", "nest"),
     "binary_chain": (lambda n: "x = " + "a + " * n + "b\n", "flat"),
     "compare_chain": (lambda n: "x = " + "a < " * n + "b\n", "flat"),
     "bool_chain": (lambda n: "x = " + "a and " * n + "b or c\n", "flat"),
